@@ -163,7 +163,7 @@ def run(vc):
               "switches, a group member that gets replaced); the power flow handed over by run= fails with a UserWarning at its k-th call, k = "
               "1..24; option / registration sequences on several instances",
         script="import sys\nfrom replaylib.diagnostic import main_state, main_frame, main_frame_errors\n"
-               "for f in (main_state, main_frame, main_frame_errors):\n    try:\n        f()\n    except SystemExit as e:\n        if e.code:\n            raise\n",
+               "from replaylib import run_all\nrun_all(main_state, main_frame, main_frame_errors)\n",
         timeout=2400))
 
 
@@ -176,7 +176,7 @@ def replay(ob, model, finding=None):
     if clause == "frame":
         fn = ob.meta.get("function", "")
         return {"script": f"# replay of {ob.id}\nimport sys\nfrom replaylib.diagnostic import main_frame, main_frame_errors\n"
-                          f"for f in (main_frame, main_frame_errors):\n    try:\n        f({fn!r})\n    except SystemExit as e:\n        if e.code:\n            raise\n",
+                          f"from replaylib import run_all\nrun_all(lambda: main_frame({fn!r}), lambda: main_frame_errors({fn!r}))\n",
                 "description": "diagnose_network on networks that drive the diagnostic function into its modifying branch, also with a power flow "
                                "that fails with another error than a convergence error at its k-th call: tables unchanged"}
     return {"script": f"# replay of {ob.id}\nfrom replaylib.diagnostic import main_state\nmain_state()\n",
